@@ -9,3 +9,4 @@ def load_all():
         importlib.import_module("contracts." + m)
 MODULES += ["util", "errors"]
 MODULES += ["output"]
+MODULES += ["validation"]
